@@ -27,6 +27,21 @@ theorem step_frames_others (fuel : Nat) (w : World) (i : Nat) (text : List Char)
     ∀ j, j ≠ i → (worldStep fuel w i text).2[j]? = w[j]? :=
   ⟨worldStep_length fuel w i text, fun j h => worldStep_other fuel w i j text h⟩
 
+/-- Registering a library source on instance `i` (`register_library_factory`) leaves every other instance exactly as
+it was — in particular a library of the same name registered or loaded through another instance keeps its own
+definition. -/
+theorem register_frames_others (w : World) (i : Nat) (lib : LibName) (fac : Interp.Factory) :
+    (worldRegister w i lib fac).length = w.length ∧
+    ∀ j, j ≠ i → (worldRegister w i lib fac)[j]? = w[j]? := by
+  unfold worldRegister
+  split
+  · exact ⟨rfl, fun _ _ => rfl⟩
+  · refine ⟨by simp, fun j h => ?_⟩
+    simp [Ne.symm h]
+
+example : (worldRegister [default, default] 0 [.ident "shlib"] (.native [])).length = 2 := by
+  simp [worldRegister]
+
 /-- … and the step itself is the library interface on that instance's own state: its result and
 the instance's new state are those of `evalText` on the old state of instance `i` alone. -/
 theorem step_is_own_eval (fuel : Nat) (w : World) (i : Nat) (text : List Char) (st : State)
